@@ -4,48 +4,537 @@ From MsmV Require Import Lib.QMat.
 Import ListNotations.
 Local Open Scope nat_scope.
 
+(* ------------------------------------------------------------------ *)
+(* helper lemmas: list plumbing and finite sums                        *)
+(* ------------------------------------------------------------------ *)
+Local Open Scope Qc_scope.
+
+Lemma nth_map_seq {A} (f : nat -> A) (n i : nat) (d : A) :
+  (i < n)%nat -> nth i (map f (seq 0 n)) d = f i.
+Proof.
+  intros Hi.
+  rewrite nth_indep with (d' := f 0%nat) by (rewrite map_length, seq_length; lia).
+  rewrite map_nth, seq_nth by lia. reflexivity.
+Qed.
+
+Lemma nth_map_lt {A B} (f : A -> B) (l : list A) (i : nat) (d : B) (d' : A) :
+  (i < length l)%nat -> nth i (map f l) d = f (nth i l d').
+Proof.
+  intros Hi.
+  rewrite nth_indep with (d' := f d') by (rewrite map_length; lia).
+  apply map_nth.
+Qed.
+
+Lemma qsum_nil : qsum [] = 0.
+Proof. reflexivity. Qed.
+
+Lemma qsum_cons x l : qsum (x :: l) = x + qsum l.
+Proof. reflexivity. Qed.
+
+Lemma qsum_app l1 l2 : qsum (l1 ++ l2) = qsum l1 + qsum l2.
+Proof.
+  induction l1 as [|x l1 IH]; cbn [app].
+  - rewrite qsum_nil. ring.
+  - rewrite !qsum_cons, IH. ring.
+Qed.
+
+Lemma qsum_map_ext {A} (f g : A -> Qc) l :
+  (forall i, In i l -> f i = g i) -> qsum (map f l) = qsum (map g l).
+Proof. intros H. f_equal. apply map_ext_in, H. Qed.
+
+Lemma qsum_map_plus {A} (f g : A -> Qc) l :
+  qsum (map (fun i => f i + g i) l) = qsum (map f l) + qsum (map g l).
+Proof.
+  induction l as [|x l IH]; cbn [map].
+  - rewrite qsum_nil. ring.
+  - rewrite !qsum_cons, IH. ring.
+Qed.
+
+Lemma qsum_map_zero {A} (l : list A) : qsum (map (fun _ => 0) l) = 0.
+Proof.
+  induction l as [|x l IH]; cbn [map]; [reflexivity|].
+  rewrite qsum_cons, IH. ring.
+Qed.
+
+Lemma qsum_map_scale_l {A} c (f : A -> Qc) l :
+  qsum (map (fun i => c * f i) l) = c * qsum (map f l).
+Proof.
+  induction l as [|x l IH]; cbn [map].
+  - rewrite qsum_nil. ring.
+  - rewrite !qsum_cons, IH. ring.
+Qed.
+
+Lemma qsum_map_scale_r {A} c (f : A -> Qc) l :
+  qsum (map (fun i => f i * c) l) = qsum (map f l) * c.
+Proof.
+  induction l as [|x l IH]; cbn [map].
+  - rewrite qsum_nil. ring.
+  - rewrite !qsum_cons, IH. ring.
+Qed.
+
+Lemma qsum_exchange {A B} (f : A -> B -> Qc) (l1 : list A) (l2 : list B) :
+  qsum (map (fun i => qsum (map (fun j => f i j) l2)) l1) =
+  qsum (map (fun j => qsum (map (fun i => f i j) l1)) l2).
+Proof.
+  induction l1 as [|x l1 IH]; cbn [map].
+  - rewrite qsum_map_zero. reflexivity.
+  - rewrite qsum_cons, IH.
+    rewrite <- qsum_map_plus. apply qsum_map_ext. intros j _. reflexivity.
+Qed.
+
+Lemma qsum_nth_seq l n :
+  length l = n -> qsum l = qsum (map (fun j => nth j l 0) (seq 0 n)).
+Proof.
+  revert n. induction l as [|x l IH]; intros n Hn; cbn [length] in Hn; subst n.
+  - reflexivity.
+  - cbn [seq map nth]. rewrite !qsum_cons. f_equal.
+    rewrite <- seq_shift, map_map. cbn [nth]. apply IH. reflexivity.
+Qed.
+
+Lemma qsum_delta_out (f : nat -> Qc) i l :
+  ~ In i l -> qsum (map (fun k => (if Nat.eqb i k then 1 else 0) * f k) l) = 0.
+Proof.
+  intros Hn. transitivity (qsum (map (fun _ : nat => 0) l)); [|apply qsum_map_zero].
+  apply qsum_map_ext.
+  intros k Hk. destruct (Nat.eqb_spec i k) as [->|_]; [contradiction|cbv beta iota; ring].
+Qed.
+
+Lemma qsum_delta (f : nat -> Qc) i n :
+  (i < n)%nat ->
+  qsum (map (fun k => (if Nat.eqb i k then 1 else 0) * f k) (seq 0 n)) = f i.
+Proof.
+  induction n as [|n IH]; intros Hi; [lia|].
+  rewrite seq_S, map_app, qsum_app. cbn [plus map]. rewrite qsum_cons, qsum_nil.
+  destruct (Nat.eq_dec i n) as [->|Hne].
+  - rewrite qsum_delta_out by (rewrite in_seq; lia).
+    rewrite Nat.eqb_refl. ring.
+  - rewrite IH by lia.
+    destruct (Nat.eqb_spec i n) as [->|_]; [contradiction|]. ring.
+Qed.
+
+Lemma qsum_delta_r (f : nat -> Qc) j n :
+  (j < n)%nat ->
+  qsum (map (fun k => f k * (if Nat.eqb k j then 1 else 0)) (seq 0 n)) = f j.
+Proof.
+  intros Hj. rewrite <- (qsum_delta f j n Hj). apply qsum_map_ext.
+  intros k _. rewrite (Nat.eqb_sym k j). ring.
+Qed.
+
+Lemma vdot_qsum a b n :
+  length a = n -> length b = n ->
+  vdot a b = qsum (map (fun k => nth k a 0 * nth k b 0) (seq 0 n)).
+Proof.
+  revert b n. induction a as [|x a IH]; intros b n Ha Hb; cbn [length] in Ha; subst n.
+  - reflexivity.
+  - destruct b as [|y b]; cbn [length] in Hb; [discriminate|].
+    injection Hb as Hb. cbn [vdot seq map nth]. rewrite qsum_cons. f_equal.
+    rewrite <- seq_shift, map_map. cbn [nth]. apply IH; auto.
+Qed.
+
+Lemma nth_col M j k : nth k (col M j) 0 = mget M k j.
+Proof.
+  unfold col, mget.
+  destruct (Nat.lt_ge_cases k (length M)) as [Hk|Hk].
+  - apply (nth_map_lt (fun r : list Qc => nth j r 0) M k 0 []). exact Hk.
+  - rewrite (nth_overflow (map _ M)) by (rewrite map_length; exact Hk).
+    rewrite (nth_overflow M) by exact Hk.
+    destruct j; reflexivity.
+Qed.
+
+Lemma length_col M j : length (col M j) = length M.
+Proof. unfold col. apply map_length. Qed.
+
+(* order facts *)
+Lemma Qc_0_le_1 : 0 <= 1.
+Proof. unfold Qcle, Qle. cbn. lia. Qed.
+
+Lemma Qcmult_nonneg x y : 0 <= x -> 0 <= y -> 0 <= x * y.
+Proof.
+  intros Hx Hy. replace 0 with (0 * y) by ring.
+  apply Qcmult_le_compat_r; assumption.
+Qed.
+
+Lemma Qcplus_nonneg x y : 0 <= x -> 0 <= y -> 0 <= x + y.
+Proof.
+  intros Hx Hy. replace 0 with (0 + 0) by ring.
+  apply Qcplus_le_compat; assumption.
+Qed.
+
+Lemma qsum_nonneg l : (forall x, In x l -> 0 <= x) -> 0 <= qsum l.
+Proof.
+  induction l as [|x l IH]; intros H.
+  - rewrite qsum_nil. apply Qcle_refl.
+  - rewrite qsum_cons. apply Qcplus_nonneg.
+    + apply H. left; reflexivity.
+    + apply IH. intros y Hy. apply H. right; exact Hy.
+Qed.
+
+Lemma vdot_nonneg a b :
+  (forall x, In x a -> 0 <= x) -> (forall y, In y b -> 0 <= y) -> 0 <= vdot a b.
+Proof.
+  revert b. induction a as [|x a IH]; intros b Ha Hb.
+  - cbn [vdot]. apply Qcle_refl.
+  - destruct b as [|y b]; cbn [vdot]; [apply Qcle_refl|].
+    apply Qcplus_nonneg.
+    + apply Qcmult_nonneg; [apply Ha|apply Hb]; left; reflexivity.
+    + apply IH; intros z Hz; [apply Ha|apply Hb]; right; exact Hz.
+Qed.
+
+Lemma nth_le_qsum l j :
+  (forall x, In x l -> 0 <= x) -> (j < length l)%nat -> nth j l 0 <= qsum l.
+Proof.
+  revert j. induction l as [|x l IH]; intros j H Hj; cbn [length] in Hj; [lia|].
+  rewrite qsum_cons.
+  assert (Hl : 0 <= qsum l).
+  { apply qsum_nonneg. intros y Hy. apply H. right; exact Hy. }
+  assert (Hx : 0 <= x) by (apply H; left; reflexivity).
+  destruct j as [|j]; cbn [nth].
+  - rewrite <- (Qcplus_0_r x) at 1. apply Qcplus_le_compat; [apply Qcle_refl|exact Hl].
+  - rewrite <- (Qcplus_0_l (nth j l 0)). apply Qcplus_le_compat; [exact Hx|].
+    apply IH; [|lia]. intros y Hy. apply H. right; exact Hy.
+Qed.
+
+Local Open Scope nat_scope.
+
 (* rectangular n x m matrix *)
 Definition wf (n m : nat) (M : mat) : Prop := length M = n /\ forall r, In r M -> length r = m.
 
+Lemma wf_length n m M : wf n m M -> length M = n.
+Proof. intros [H _]; exact H. Qed.
+
+Lemma wf_row n m M i : wf n m M -> i < n -> length (nth i M []) = m.
+Proof. intros [Hl Hr] Hi. apply Hr, nth_In. lia. Qed.
+
+Lemma wf_ncols n m M : 0 < n -> wf n m M -> ncols M = m.
+Proof.
+  intros Hn [Hl Hr]. destruct M as [|r M]; cbn [length] in Hl; [lia|].
+  cbn [ncols]. apply Hr. left; reflexivity.
+Qed.
+
+Lemma wf_transpose_eq n m M : 0 < n -> wf n m M -> transpose M = map (col M) (seq 0 m).
+Proof. intros Hn HM. unfold transpose. rewrite (wf_ncols n m M Hn HM). reflexivity. Qed.
+
 Lemma mat_ext n m A B : wf n m A -> wf n m B ->
   (forall i j, i < n -> j < m -> mget A i j = mget B i j) -> A = B.
-Proof. TODO. Qed.
+Proof.
+  intros HA HB Hext.
+  apply nth_ext with (d := []) (d' := []).
+  - rewrite (wf_length _ _ _ HA), (wf_length _ _ _ HB). reflexivity.
+  - intros i Hi. rewrite (wf_length _ _ _ HA) in Hi.
+    apply nth_ext with (d := 0%Qc) (d' := 0%Qc).
+    + rewrite (wf_row _ _ _ _ HA Hi), (wf_row _ _ _ _ HB Hi). reflexivity.
+    + intros j Hj. rewrite (wf_row _ _ _ _ HA Hi) in Hj.
+      apply (Hext i j Hi Hj).
+Qed.
 
 Lemma wf_identity n : wf n n (identity n).
-Proof. TODO. Qed.
+Proof.
+  split.
+  - unfold identity. rewrite map_length, seq_length. reflexivity.
+  - intros r Hr. unfold identity in Hr. apply in_map_iff in Hr.
+    destruct Hr as [i [<- _]]. rewrite map_length, seq_length. reflexivity.
+Qed.
 Lemma mget_identity n i j : i < n -> j < n -> mget (identity n) i j = (if Nat.eqb i j then 1 else 0)%Qc.
-Proof. TODO. Qed.
+Proof.
+  intros Hi Hj. unfold mget, identity.
+  rewrite (nth_map_seq _ n i [] Hi).
+  rewrite (nth_map_seq _ n j 0%Qc Hj). reflexivity.
+Qed.
 
 Lemma wf_transpose n m M : 0 < n -> wf n m M -> wf m n (transpose M).
-Proof. TODO. Qed.
+Proof.
+  intros Hn HM. rewrite (wf_transpose_eq n m M Hn HM). split.
+  - rewrite map_length, seq_length. reflexivity.
+  - intros r Hr. apply in_map_iff in Hr. destruct Hr as [j [<- _]].
+    rewrite length_col. apply (wf_length _ _ _ HM).
+Qed.
 Lemma mget_transpose n m M i j : 0 < n -> wf n m M -> i < m -> j < n -> mget (transpose M) i j = mget M j i.
-Proof. TODO. Qed.
+Proof.
+  intros Hn HM Hi Hj. rewrite (wf_transpose_eq n m M Hn HM).
+  unfold mget at 1. transitivity (nth j (col M i) 0%Qc); [|apply nth_col].
+  f_equal. apply nth_map_seq. exact Hi.
+Qed.
+
+Lemma mmul_row_nth A B i : i < length A ->
+  nth i (mmul A B) [] = map (fun c => vdot (nth i A []) c) (transpose B).
+Proof.
+  intros Hi. unfold mmul.
+  apply (nth_map_lt (fun r => map (fun c => vdot r c) (transpose B)) A i [] []). exact Hi.
+Qed.
 
 Lemma wf_mmul n p m A B : 0 < p -> wf n p A -> wf p m B -> wf n m (mmul A B).
-Proof. TODO. Qed.
+Proof.
+  intros Hp HA HB. split.
+  - unfold mmul. rewrite map_length. apply (wf_length _ _ _ HA).
+  - intros r Hr. unfold mmul in Hr. apply in_map_iff in Hr.
+    destruct Hr as [r' [<- _]]. rewrite map_length.
+    apply (wf_length _ _ _ (wf_transpose p m B Hp HB)).
+Qed.
 (* entry of a product = sum over the inner index *)
 Lemma mget_mmul n p m A B i j : 0 < p -> wf n p A -> wf p m B -> i < n -> j < m ->
   mget (mmul A B) i j = qsum (map (fun k => (mget A i k * mget B k j)%Qc) (seq 0 p)).
-Proof. TODO. Qed.
+Proof.
+  intros Hp HA HB Hi Hj. unfold mget at 1.
+  rewrite mmul_row_nth by (rewrite (wf_length _ _ _ HA); exact Hi).
+  rewrite (wf_transpose_eq p m B Hp HB), map_map.
+  rewrite (nth_map_seq _ m j 0%Qc Hj).
+  rewrite (vdot_qsum _ _ p).
+  - apply qsum_map_ext. intros k _. rewrite nth_col. reflexivity.
+  - apply (wf_row _ _ _ _ HA Hi).
+  - rewrite length_col. apply (wf_length _ _ _ HB).
+Qed.
 
 Lemma mmul_assoc n p q m A B C : 0 < p -> 0 < q -> wf n p A -> wf p q B -> wf q m C ->
   mmul (mmul A B) C = mmul A (mmul B C).
-Proof. TODO. Qed.
+Proof.
+  intros Hp Hq HA HB HC.
+  assert (HAB : wf n q (mmul A B)) by (apply (wf_mmul n p q); assumption).
+  assert (HBC : wf p m (mmul B C)) by (apply (wf_mmul p q m); assumption).
+  apply (mat_ext n m).
+  - apply (wf_mmul n q m); assumption.
+  - apply (wf_mmul n p m); assumption.
+  - intros i j Hi Hj.
+    rewrite (mget_mmul n q m (mmul A B) C i j Hq HAB HC Hi Hj).
+    rewrite (mget_mmul n p m A (mmul B C) i j Hp HA HBC Hi Hj).
+    transitivity (qsum (map (fun l => qsum (map (fun k => (mget A i k * mget B k l * mget C l j)%Qc) (seq 0 p))) (seq 0 q))).
+    + apply qsum_map_ext. intros l Hl. apply in_seq in Hl.
+      rewrite (mget_mmul n p q A B i l Hp HA HB Hi) by lia.
+      rewrite <- qsum_map_scale_r. reflexivity.
+    + rewrite qsum_exchange. apply qsum_map_ext. intros k Hk. apply in_seq in Hk.
+      rewrite (mget_mmul p q m B C k j Hq HB HC) by lia.
+      rewrite <- qsum_map_scale_l. apply qsum_map_ext. intros l _. ring.
+Qed.
 Lemma mmul_identity_l n m A : 0 < n -> wf n m A -> mmul (identity n) A = A.
-Proof. TODO. Qed.
+Proof.
+  intros Hn HA. apply (mat_ext n m).
+  - apply (wf_mmul n n m); [exact Hn|apply wf_identity|exact HA].
+  - exact HA.
+  - intros i j Hi Hj.
+    rewrite (mget_mmul n n m (identity n) A i j Hn (wf_identity n) HA Hi Hj).
+    rewrite <- (qsum_delta (fun k => mget A k j) i n Hi).
+    apply qsum_map_ext. intros k Hk. apply in_seq in Hk.
+    rewrite mget_identity by lia. reflexivity.
+Qed.
 Lemma mmul_identity_r n m A : 0 < m -> wf n m A -> mmul A (identity m) = A.
-Proof. TODO. Qed.
+Proof.
+  intros Hm HA. apply (mat_ext n m).
+  - apply (wf_mmul n m m); [exact Hm|exact HA|apply wf_identity].
+  - exact HA.
+  - intros i j Hi Hj.
+    rewrite (mget_mmul n m m A (identity m) i j Hm HA (wf_identity m) Hi Hj).
+    rewrite <- (qsum_delta_r (fun k => mget A i k) j m Hj).
+    apply qsum_map_ext. intros k Hk. apply in_seq in Hk.
+    rewrite mget_identity by lia. reflexivity.
+Qed.
 
 Lemma wf_mpow n M k : 0 < n -> wf n n M -> wf n n (mpow M k).
-Proof. TODO. Qed.
+Proof.
+  intros Hn HM. induction k as [|k IH]; cbn [mpow].
+  - rewrite (wf_length _ _ _ HM). apply wf_identity.
+  - apply (wf_mmul n n n); assumption.
+Qed.
 Lemma mpow_add n M a b : 0 < n -> wf n n M -> mpow M (a + b) = mmul (mpow M a) (mpow M b).
-Proof. TODO. Qed.
+Proof.
+  intros Hn HM. induction a as [|a IH]; cbn [plus mpow].
+  - rewrite (wf_length _ _ _ HM). symmetry.
+    apply (mmul_identity_l n n); [exact Hn|apply wf_mpow; assumption].
+  - rewrite IH. symmetry.
+    apply (mmul_assoc n n n n); try assumption; apply wf_mpow; assumption.
+Qed.
+
+Lemma mpow_1 n M : 0 < n -> wf n n M -> mpow M 1 = M.
+Proof.
+  intros Hn HM. cbn [mpow]. rewrite (wf_length _ _ _ HM).
+  apply (mmul_identity_r n n); assumption.
+Qed.
+
+Lemma mpow_pos_eq n M p : 0 < n -> wf n n M -> mpow_pos M p = mpow M (Pos.to_nat p).
+Proof.
+  intros Hn HM. induction p as [p IH|p IH|]; cbn [mpow_pos].
+  - rewrite Pos2Nat.inj_xI. cbn [mpow]. rewrite IH.
+    replace (2 * Pos.to_nat p) with (Pos.to_nat p + Pos.to_nat p) by lia.
+    rewrite (mpow_add n M _ _ Hn HM). reflexivity.
+  - rewrite Pos2Nat.inj_xO. rewrite IH.
+    replace (2 * Pos.to_nat p) with (Pos.to_nat p + Pos.to_nat p) by lia.
+    rewrite (mpow_add n M _ _ Hn HM). reflexivity.
+  - rewrite Pos2Nat.inj_1. symmetry. apply (mpow_1 n); assumption.
+Qed.
+
 (* square-and-multiply computes the same power *)
 Lemma mpow_fast_eq n M k : 0 < n -> wf n n M -> mpow_fast M k = mpow M k.
-Proof. TODO. Qed.
+Proof.
+  intros Hn HM. destruct k as [|k]; [reflexivity|].
+  unfold mpow_fast. rewrite (mpow_pos_eq n M _ Hn HM).
+  rewrite Nat2Pos.id by lia. reflexivity.
+Qed.
+
+(* ------------------------------------------------------------------ *)
+(* integer-scaled power: helper lemmas                                 *)
+(* ------------------------------------------------------------------ *)
+Definition toQ (L : positive) (A : list (list Z)) : mat :=
+  map (map (fun z => Q2Qc (z # L))) A.
+
+Lemma Q2Qc_scaled_0 L : Q2Qc (0 # L) = 0%Qc.
+Proof. apply Q2Qc_eq_iff. unfold Qeq. cbn [Qnum Qden]. lia. Qed.
+
+Lemma Q2Qc_scaled_mul a b L L' :
+  (Q2Qc (a # L) * Q2Qc (b # L'))%Qc = Q2Qc ((a * b) # (L * L')).
+Proof.
+  unfold Qcmult. apply Q2Qc_eq_iff. cbn [this Q2Qc].
+  rewrite !Qred_correct. reflexivity.
+Qed.
+
+Lemma Q2Qc_scaled_add a b D :
+  (Q2Qc (a # D) + Q2Qc (b # D))%Qc = Q2Qc ((a + b) # D).
+Proof.
+  unfold Qcplus. apply Q2Qc_eq_iff. cbn [this Q2Qc].
+  rewrite !Qred_correct. unfold Qeq, Qplus. cbn [Qnum Qden].
+  rewrite Pos2Z.inj_mul. ring.
+Qed.
+
+Lemma zdot_nil_l c : zdot [] c = 0%Z.
+Proof. reflexivity. Qed.
+Lemma zdot_nil_r r : zdot r [] = 0%Z.
+Proof. destruct r; reflexivity. Qed.
+Lemma zdot_cons x r y c : zdot (x :: r) (y :: c) = (x * y + zdot r c)%Z.
+Proof. reflexivity. Qed.
+
+Lemma vdot_toQ L L' r c :
+  vdot (map (fun z => Q2Qc (z # L)) r) (map (fun z => Q2Qc (z # L')) c)
+  = Q2Qc (zdot r c # (L * L')).
+Proof.
+  revert c. induction r as [|x r IH]; intros c.
+  - cbn [map vdot]. rewrite zdot_nil_l, (Q2Qc_scaled_0 (L * L')). reflexivity.
+  - destruct c as [|y c].
+    + cbn [map vdot]. rewrite zdot_nil_r, (Q2Qc_scaled_0 (L * L')). reflexivity.
+    + cbn [map vdot]. rewrite zdot_cons, IH, Q2Qc_scaled_mul, Q2Qc_scaled_add.
+      reflexivity.
+Qed.
+
+Lemma transpose_toQ L B : transpose (toQ L B) = toQ L (ztranspose B).
+Proof.
+  unfold transpose, ztranspose, toQ.
+  assert (Hn : ncols (map (map (fun z => Q2Qc (z # L))) B)
+               = match B with [] => O | r :: _ => length r end).
+  { destruct B as [|r B]; [reflexivity|]. cbn [map ncols]. apply map_length. }
+  rewrite Hn, map_map. apply map_ext. intros j.
+  unfold col, zcol. rewrite !map_map. apply map_ext. intros r.
+  rewrite <- (Q2Qc_scaled_0 L).
+  exact (map_nth (fun z => Q2Qc (z # L)) r 0%Z j).
+Qed.
+
+Lemma mmul_toQ L L' A B : mmul (toQ L A) (toQ L' B) = toQ (L * L') (zmmul A B).
+Proof.
+  unfold mmul, zmmul. rewrite transpose_toQ. unfold toQ.
+  rewrite !map_map. apply map_ext. intros r.
+  rewrite !map_map. apply map_ext. intros c.
+  apply vdot_toQ.
+Qed.
+
+Lemma pos_pow_xO L p : (L ^ p~0 = L ^ p * L ^ p)%positive.
+Proof.
+  apply Pos2Z.inj. rewrite Pos2Z.inj_mul, !Pos2Z.inj_pow, Pos2Z.inj_xO.
+  apply Z.pow_twice_r.
+Qed.
+
+Lemma pos_pow_xI L p : (L ^ p~1 = L * (L ^ p * L ^ p))%positive.
+Proof.
+  change (p~1)%positive with (Pos.succ p~0).
+  rewrite Pos.pow_succ_r, pos_pow_xO. reflexivity.
+Qed.
+
+Lemma mpow_pos_toQ L A p :
+  toQ (L ^ p) (zmpow_pos A p) = mpow_pos (toQ L A) p.
+Proof.
+  induction p as [p IH|p IH|]; cbn [zmpow_pos mpow_pos].
+  - rewrite pos_pow_xI, <- !mmul_toQ, IH. reflexivity.
+  - rewrite pos_pow_xO, <- mmul_toQ, IH. reflexivity.
+  - rewrite Pos.pow_1_r. reflexivity.
+Qed.
+
+Lemma map_id_in {A} (f : A -> A) l : (forall x, In x l -> f x = x) -> map f l = l.
+Proof.
+  induction l as [|x l IH]; intros H; cbn [map]; [reflexivity|].
+  rewrite (H x) by (left; reflexivity). f_equal.
+  apply IH. intros y Hy. apply H. right; exact Hy.
+Qed.
+
+Lemma scale_entry L (q : Qc) :
+  (Zpos (Qden (this q)) | Zpos L)%Z ->
+  Q2Qc ((Qnum (this q) * (Zpos L / Zpos (Qden (this q)))) # L) = q.
+Proof.
+  intros [c Hc]. apply Qc_is_canon. cbn [this Q2Qc]. rewrite Qred_correct.
+  unfold Qeq. cbn [Qnum Qden]. rewrite Hc, Z.div_mul by discriminate. ring.
+Qed.
+
+Lemma toQ_scale L M :
+  (forall r q, In r M -> In q r -> (Zpos (Qden (this q)) | Zpos L)%Z) ->
+  toQ L (scale_to_Z L M) = M.
+Proof.
+  intros H. unfold toQ, scale_to_Z. rewrite map_map. apply map_id_in.
+  intros r Hr. rewrite map_map. apply map_id_in. intros q Hq.
+  apply scale_entry. apply (H r q Hr Hq).
+Qed.
+
+Lemma plcm_spec a b : Zpos (plcm a b) = Z.lcm (Zpos a) (Zpos b).
+Proof.
+  unfold plcm. apply Z2Pos.id.
+  assert (H0 := Z.lcm_nonneg (Zpos a) (Zpos b)).
+  assert (H1 : Z.lcm (Zpos a) (Zpos b) <> 0%Z).
+  { intros E. apply Z.lcm_eq_0 in E. destruct E; discriminate. }
+  lia.
+Qed.
+
+Definition row_den (acc : positive) (r : list Qc) : positive :=
+  fold_right (fun q acc' => plcm (Qden (this q)) acc') acc r.
+
+Lemma row_den_acc r acc : (Zpos acc | Zpos (row_den acc r))%Z.
+Proof.
+  induction r as [|q r IH]; cbn [row_den fold_right].
+  - apply Z.divide_refl.
+  - fold (row_den acc r). rewrite plcm_spec.
+    eapply Z.divide_trans; [exact IH|apply Z.divide_lcm_r].
+Qed.
+
+Lemma row_den_in r acc q : In q r -> (Zpos (Qden (this q)) | Zpos (row_den acc r))%Z.
+Proof.
+  induction r as [|q' r IH]; intros Hq; [destruct Hq|].
+  cbn [row_den fold_right]. fold (row_den acc r). rewrite plcm_spec.
+  destruct Hq as [->|Hq].
+  - apply Z.divide_lcm_l.
+  - eapply Z.divide_trans; [exact (IH Hq)|apply Z.divide_lcm_r].
+Qed.
+
+Lemma common_den_cons r M : common_den (r :: M) = row_den (common_den M) r.
+Proof. reflexivity. Qed.
+
+Lemma common_den_div M r q :
+  In r M -> In q r -> (Zpos (Qden (this q)) | Zpos (common_den M))%Z.
+Proof.
+  induction M as [|r' M IH]; intros Hr Hq; [destruct Hr|].
+  rewrite common_den_cons. destruct Hr as [->|Hr].
+  - apply row_den_in. exact Hq.
+  - eapply Z.divide_trans; [exact (IH Hr Hq)|apply row_den_acc].
+Qed.
+
+(* the integer-scaled power equals the square-and-multiply power for every
+   matrix (no shape condition) *)
+Lemma mpow_scaled_fast M k : mpow_scaled M k = mpow_fast M k.
+Proof.
+  destruct k as [|k]; [reflexivity|].
+  unfold mpow_scaled, mpow_fast.
+  change (toQ (common_den M ^ Pos.of_nat (S k))
+              (zmpow_pos (scale_to_Z (common_den M) M) (Pos.of_nat (S k)))
+          = mpow_pos M (Pos.of_nat (S k))).
+  rewrite mpow_pos_toQ, toQ_scale; [reflexivity|].
+  intros r q Hr Hq. apply (common_den_div M r q Hr Hq).
+Qed.
+
 (* the integer-scaled power (common denominator, no normalisation inside) computes the same power *)
 Lemma mpow_scaled_eq n M k : 0 < n -> wf n n M -> mpow_scaled M k = mpow M k.
-Proof. TODO. Qed.
+Proof.
+  intros Hn HM. rewrite mpow_scaled_fast. apply (mpow_fast_eq n); assumption.
+Qed.
 
 (* products with stochastic factors *)
 Definition rows_sum_one (M : mat) : Prop := forall r, In r M -> qsum r = 1%Qc.
@@ -53,12 +542,82 @@ Definition entries_nonneg (M : mat) : Prop := forall r x, In r M -> In x r -> (0
 
 Lemma rows_sum_one_mmul n p m A B : 0 < p -> wf n p A -> wf p m B ->
   rows_sum_one A -> rows_sum_one B -> rows_sum_one (mmul A B).
-Proof. TODO. Qed.
+Proof.
+  intros Hp HA HB SA SB r Hr. unfold mmul in Hr. apply in_map_iff in Hr.
+  destruct Hr as [a [<- Ha]].
+  assert (Hla : length a = p) by (apply HA; exact Ha).
+  rewrite (wf_transpose_eq p m B Hp HB), map_map.
+  transitivity (qsum (map (fun j => qsum (map (fun k => (nth k a 0 * mget B k j)%Qc) (seq 0 p))) (seq 0 m))).
+  { apply qsum_map_ext. intros j _. rewrite (vdot_qsum _ _ p).
+    - apply qsum_map_ext. intros k _. rewrite nth_col. reflexivity.
+    - exact Hla.
+    - rewrite length_col. apply (wf_length _ _ _ HB). }
+  rewrite qsum_exchange.
+  transitivity (qsum (map (fun k => (nth k a 0 * 1)%Qc) (seq 0 p))).
+  { apply qsum_map_ext. intros k Hk. apply in_seq in Hk.
+    rewrite qsum_map_scale_l. f_equal.
+    unfold mget. rewrite <- (qsum_nth_seq (nth k B []) m).
+    - apply SB. apply nth_In. rewrite (wf_length _ _ _ HB). lia.
+    - apply (wf_row _ _ _ _ HB). lia. }
+  transitivity (qsum a); [|apply SA; exact Ha].
+  rewrite (qsum_nth_seq a p Hla). apply qsum_map_ext. intros k _. ring.
+Qed.
 Lemma entries_nonneg_mmul n p m A B : 0 < p -> wf n p A -> wf p m B ->
   entries_nonneg A -> entries_nonneg B -> entries_nonneg (mmul A B).
-Proof. TODO. Qed.
+Proof.
+  intros Hp HA HB NA NB r x Hr Hx. unfold mmul in Hr. apply in_map_iff in Hr.
+  destruct Hr as [a [<- Ha]]. apply in_map_iff in Hx.
+  destruct Hx as [c [<- Hc]]. unfold transpose in Hc. apply in_map_iff in Hc.
+  destruct Hc as [j [<- _]].
+  apply vdot_nonneg.
+  - intros y Hy. apply (NA a y Ha Hy).
+  - intros y Hy. unfold col in Hy. apply in_map_iff in Hy.
+    destruct Hy as [b [<- Hb]].
+    destruct (nth_in_or_default j b 0%Qc) as [Hin | Hdef].
+    + apply (NB b _ Hb Hin).
+    + rewrite Hdef. apply Qcle_refl.
+Qed.
+
+Lemma rows_sum_one_identity n : rows_sum_one (identity n).
+Proof.
+  intros r Hr. unfold identity in Hr. apply in_map_iff in Hr.
+  destruct Hr as [i [<- Hi]]. apply in_seq in Hi.
+  transitivity (qsum (map (fun k => ((if Nat.eqb i k then 1 else 0) * 1)%Qc) (seq 0 n))).
+  - apply qsum_map_ext. intros k _. ring.
+  - apply (qsum_delta (fun _ => 1%Qc) i n). lia.
+Qed.
+
+Lemma entries_nonneg_identity n : entries_nonneg (identity n).
+Proof.
+  intros r x Hr Hx. unfold identity in Hr. apply in_map_iff in Hr.
+  destruct Hr as [i [<- _]]. apply in_map_iff in Hx.
+  destruct Hx as [j [<- _]].
+  destruct (Nat.eqb i j); [apply Qc_0_le_1|apply Qcle_refl].
+Qed.
+
+Lemma stochastic_entry_le_1 n m M i j : wf n m M -> rows_sum_one M -> entries_nonneg M ->
+  i < n -> j < m -> (mget M i j <= 1)%Qc.
+Proof.
+  intros HM SM NM Hi Hj. unfold mget.
+  assert (Hin : In (nth i M []) M) by (apply nth_In; rewrite (wf_length _ _ _ HM); exact Hi).
+  rewrite <- (SM _ Hin). apply nth_le_qsum.
+  - intros x Hx. apply (NM _ x Hin Hx).
+  - rewrite (wf_row _ _ _ _ HM Hi). exact Hj.
+Qed.
+
 (* powers of a row-stochastic matrix are row-stochastic with entries in [0,1] *)
 Lemma mpow_stochastic n M k : 0 < n -> wf n n M -> rows_sum_one M -> entries_nonneg M ->
   rows_sum_one (mpow M k) /\ entries_nonneg (mpow M k) /\
   (forall i j, i < n -> j < n -> (mget (mpow M k) i j <= 1)%Qc).
-Proof. TODO. Qed.
+Proof.
+  intros Hn HM SM NM.
+  assert (H : rows_sum_one (mpow M k) /\ entries_nonneg (mpow M k)).
+  { induction k as [|k [IHs IHn]]; cbn [mpow].
+    - split; [apply rows_sum_one_identity|apply entries_nonneg_identity].
+    - assert (HP := wf_mpow n M k Hn HM). split.
+      + apply (rows_sum_one_mmul n n n); assumption.
+      + apply (entries_nonneg_mmul n n n); assumption. }
+  destruct H as [Hs Hnn]. split; [exact Hs|]. split; [exact Hnn|].
+  intros i j Hi Hj.
+  apply (stochastic_entry_le_1 n n); try assumption. apply wf_mpow; assumption.
+Qed.
